@@ -33,6 +33,10 @@ def cases(tier, rng):
         for mode in ("cut-open", "garbage-open"):
             line = "c14 %s %d %s" % (c, n, mode)
             cs.append({"line": line, "key": line, "model": False, "tags": {"carrier": c, "n": n, "mode": mode}})
+    # DNS tunnel sessions one after the other over one listener, a reader parked in Read on both ends when the session is closed
+    for mode in ("client-closes", "server-closes"):
+        line = "c14d %d %s" % (n, mode)
+        cs.append({"line": line, "key": line, "model": False, "tags": {"carrier": "dns-ends", "n": n, "mode": mode}})
     cs.append({"line": "c14 tcp 1 read-timeout", "key": "c14 read-timeout", "model": False, "tags": {"carrier": "memory", "n": 1, "mode": "read-timeout"}})
     if thorough:
         cs.append({"line": "c14 tcp 500 app-closes", "key": "c14 tcp 500", "tags": {"carrier": "tcp", "n": 500, "mode": "app-closes"}})
@@ -85,6 +89,8 @@ def oracle(case, impl):
         out.append(("fd-growth", "file descriptors grew from %d to %d over %d connections" % (pr["fd"][0], pr["fd"][1], 2 * t["n"])))
     if t["mode"] in ("cut", "garbage") and pr["cpu"] > 300:
         out.append(("busy-loop;mode=" + t["mode"], "%d ms of CPU in an idle second after the session ended (%s)" % (pr["cpu"], case["line"])))
+    if t["carrier"] == "dns-ends" and pr["ok"] < 2 * t["n"]:
+        out.append(("reader-not-woken;mode=" + t["mode"], "on %d of %d DNS tunnel sessions a reader parked in Read was not released when the session was closed (%s)" % (2 * t["n"] - pr["ok"], 2 * t["n"], case["line"])))
     if pr["ok"] < 2 * t["n"] * 0.9:
         out.append(("connections-failed", "only %d of %d logical connections completed" % (pr["ok"], 2 * t["n"])))
     return out
